@@ -58,6 +58,7 @@ type hooks struct {
 	perm    func(site int, n int) []int
 	choose  func(site int, ready []int) int
 	resolve func(host string) (net.IP, error)
+	skew    func() time.Duration
 	knobs   map[string]int
 }
 
@@ -146,6 +147,21 @@ func ResolveIPAddr(network, address string) (*net.IPAddr, error) {
 		return nil, err
 	}
 	return &net.IPAddr{IP: ip}, nil
+}
+
+// ---- one-shot timers (rule R9) -----------------------------------------------------
+
+// SetTimerSkew installs the simulator's source of per-timer offsets.
+func SetTimerSkew(f func() time.Duration) { set(func(h *hooks) { h.skew = f }) }
+
+// AfterFunc is time.AfterFunc; under the simulator every timer is a few ns later than
+// asked for, by an amount no other timer of the run has, so that two timers never expire
+// in one simulated instant (the order of their callbacks would be the runtime's choice).
+func AfterFunc(d time.Duration, f func()) *time.Timer {
+	if sk := get().skew; sk != nil {
+		d += sk()
+	}
+	return time.AfterFunc(d, f)
 }
 
 // ---- map iteration order (rule R3) -------------------------------------------------
